@@ -245,7 +245,7 @@ class Model:
                 vs = sorted(R.in_scope(op[5]))
                 k_ = lambda sols_: sorted(sorted((v, str(R.rkey(m[v]))) for v in vs if m.get(v) is not None) for m in sols_)
                 try:
-                    if k_(R.eval_seeded(op[5], self.ctx(union, with_, using), {})) != k_(sols): raise R.Latitude("push-down region")
+                    if any(k_(R.eval_seeded(op[5], self.ctx(union, with_, using), {}, forget=fg)) != k_(sols) for fg in (False, True)): raise R.Latitude("push-down region")
                 except R.Err:
                     raise R.Latitude("push-down region")
             dels, ins = [], []
